@@ -418,6 +418,33 @@ def r3_exemptions(run, w):
   ex_norm = ex.norm(ast.Name(id=exv, ctx=ast.Load()))
   def is_exempt(e):
     return (isinstance(e, ast.Name) and e.id in names) or text(e) == ex_norm
+  def is_subtraction(v):
+    """Does v (locals expanded) denote the dirty rows with the exempt rows removed?"""
+    # <dirty> - <exempt>   |   <dirty>.difference(<exempt>)
+    if isinstance(v, ast.BinOp) and isinstance(v.op, ast.Sub) and text(v.left) == dv and \
+        is_exempt(v.right):
+      return True
+    if isinstance(v, ast.Call) and isinstance(v.func, ast.Attribute) and \
+        v.func.attr == "difference" and text(v.func.value) == dv and \
+        len(v.args) == 1 and is_exempt(v.args[0]):
+      return True
+    # (<dirty> - <exempt>) if <exempt> else <dirty>
+    if isinstance(v, ast.IfExp):
+      k, pol = atom_of(v.test)
+      if k in names or k == ex_norm:
+        yes, no = (v.body, v.orelse) if pol else (v.orelse, v.body)
+        return is_subtraction(yes) and text(no) == dv
+      return False
+    # <ctor>(r for r in <dirty> if r not in <exempt>)
+    c = strip_wrappers(v, names=("SortedSet", "set", "sorted", "list", "frozenset"))
+    if isinstance(c, (ast.GeneratorExp, ast.ListComp, ast.SetComp)) and \
+        len(c.generators) == 1 and text(c.generators[0].iter) == dv and \
+        isinstance(c.generators[0].target, ast.Name) and \
+        text(c.elt) == c.generators[0].target.id and len(c.generators[0].ifs) == 1:
+      k, pol = atom_of(c.generators[0].ifs[0])
+      return pol is False and any(k == "%s in %s" % (c.generators[0].target.id, nm)
+                                  for nm in set(names) | {ex_norm})
+    return False
   subs = set()
   for n in cfg.nodes:
     if not (n.kind == "stmt" and isinstance(n.stmt, (ast.Assign, ast.AugAssign))):
@@ -426,26 +453,8 @@ def r3_exemptions(run, w):
     if isinstance(s_, ast.Assign):
       if not (len(s_.targets) == 1 and text(s_.targets[0]) == dv):
         continue
-      v = ex.expand(s_.value)
-      # <dirty> = <dirty> - <exempt>   |   <dirty>.difference(<exempt>)
-      if isinstance(v, ast.BinOp) and isinstance(v.op, ast.Sub) and text(v.left) == dv and \
-          is_exempt(v.right):
+      if is_subtraction(ex.expand(s_.value)):
         subs.add(n.id)
-      elif isinstance(v, ast.Call) and isinstance(v.func, ast.Attribute) and \
-          v.func.attr == "difference" and text(v.func.value) == dv and \
-          len(v.args) == 1 and is_exempt(v.args[0]):
-        subs.add(n.id)
-      else:
-        # <dirty> = <ctor>(r for r in <dirty> if r not in <exempt>)
-        c = strip_wrappers(v, names=("SortedSet", "set", "sorted", "list", "frozenset"))
-        if isinstance(c, (ast.GeneratorExp, ast.ListComp, ast.SetComp)) and \
-            len(c.generators) == 1 and text(c.generators[0].iter) == dv and \
-            isinstance(c.generators[0].target, ast.Name) and \
-            text(c.elt) == c.generators[0].target.id and len(c.generators[0].ifs) == 1:
-          k, pol = atom_of(c.generators[0].ifs[0])
-          if pol is False and any(k == "%s in %s" % (c.generators[0].target.id, nm)
-                                  for nm in set(names) | {ex_norm}):
-            subs.add(n.id)
   fr = Facts(cfg, set(names), ex=None)
   starts = [(m, {nm: True for nm in names}) for m in cfg.normal_succ(rd.id)]
   seen = fr.run(starts, stop=subs)
